@@ -8,12 +8,14 @@ import NutsModel.C02.Token
 import NutsModel.C02.History
 import NutsModel.C02.Jar
 import NutsModel.C02.Policy
+import NutsModel.C02.Front
 import NutsModel.Facts.C02
 import NutsProofs.Lemmas.C02
 import NutsProofs.Lemmas.C02b
 import NutsProofs.Lemmas.C02c
 import NutsProofs.Lemmas.C02d
 import NutsProofs.Lemmas.C02e
+import NutsProofs.Lemmas.C02f
 
 namespace Nuts.C02.Props
 open Nuts.C02
@@ -1086,5 +1088,79 @@ example : (loadDir [] [polShadow, polA, polDir, polB]).bind (fun p => .ok (looku
     .ok (some [("organization", ⟨"pd1", 0⟩)], none) := by decide
 
 example : loadDir [] [polA, { polShadow with name := "c.json" }] = .err "duplicate-scope" := by decide
+
+/-! ### Deepening round: the three public endpoints over ALL request sequences (NutsModel/C02/Front.lean) -/
+
+/-- **invariant of the session stores.** Start from empty stores and let the outside world send ANY sequence of
+    requests to the authorization, response and token endpoints (any environments, any defects, any times). Then every
+    session in the client-state store and every session behind an authorization code stems from a signed request object
+    of that sequence which the authorization endpoint accepted (`JarAccepted`): its client id is the client id of that
+    request (= the signed claim), its tenant, scope, PKCE challenge (non-empty, S256) and client state are the signed
+    ones, the request was addressed to this tenant and its scope is configured. -/
+theorem every_session_stems_from_a_signed_request (cfg : Cfg) (n : GrantNames) (sha : String → String)
+    (h : List (Nat × Req)) : SessOK (FromSignedRequest cfg h) (serveAll cfg n sha h {}) :=
+  serveAll_sess cfg n sha h h {} (fun _ hx => hx)
+    ⟨fun _ he => absurd he List.not_mem_nil, fun _ he => absurd he List.not_mem_nil⟩
+
+/-- **authorization request line → token decision, across requests (end to end).** After ANY sequence of requests at
+    the public endpoints, a 200 for an `authorization_code` token request implies that the sequence contains an accepted
+    signed authorization request, addressed to the tenant the token is issued for, whose client id is the token
+    request's client_id, whose signed S256 challenge is the digest of the presented code_verifier, and whose signed
+    scope is the scope of the token. -/
+theorem code_token_traces_back_to_a_signed_request (cfg : Cfg) (n : GrantNames) (sha : String → String)
+    (h : List (Nat × Req)) (now : Nat) (subject g : String) (s2s : S2SReq) (code : CodeReq) (w' : World)
+    (resp : TokenResponse) (hg : g = n.authorizationCode)
+    (hok : tokenEndpoint cfg n sha (serveAll cfg n sha h {}) now subject g s2s code = (w', .ok resp)) :
+    ∃ t env r p verifier, (t, Req.authz true env r) ∈ h ∧ JarAccepted env r.query p ∧
+      pget p "response_type" = "code" ∧ pget p "aud" = cfg.issuerURL r.subject ∧
+      code.clientId = some r.query.clientId ∧ code.verifier = some verifier ∧
+      sha verifier = pget p "code_challenge" ∧ pget p "code_challenge_method" = "S256" ∧
+      resp.scope = pget p "scope" := by
+  have hinv := every_session_stems_from_a_signed_request cfg n sha h
+  unfold tokenEndpoint at hok
+  split at hok
+  · simp at hok
+  · have hc : classifyGrant n g = .authorizationCode := by unfold classifyGrant; rw [if_pos hg]
+    rw [hc] at hok
+    obtain ⟨c, v, session, hchk, heff⟩ := code_token_only_if cfg sha _ w' now _ resp hok
+    obtain ⟨t, env, r, p, hmem, _, hacc, hrt, haud, hcid, _, hsc, hch, _, _, hm, _, _⟩ :=
+      allVals_get _ _ now c session hinv.2 hchk.known
+    refine ⟨t, env, r, p, v, hmem, hacc, hrt, haud, ?_, hchk.verifierGiven, ?_, hm, ?_⟩
+    · have := hchk.client
+      simp only at this
+      rw [this, hcid]
+    · rw [hchk.pkce, hch]
+    · rw [heff.scope, hsc]
+
+/-! non-vacuity: three requests from the outside - a signed authorization request fetched by POST, the wallet's response,
+    the token request - end in a token; the same token request under a case variant of the client id does not -/
+private def frontCfg : Cfg := { witnessCfg with policy := [("care", [("organization", ⟨"pd_org", 0⟩)])] }
+
+private def frontEnv : JarEnv :=
+  { fetchGet := fun _ => none,
+    fetchPost := fun u => if u = "https://c/r.jwt" then some "RAW" else none,
+    parse := fun raw => if raw = "RAW" then some ⟨"kid-1", "K1",
+      [("aud", .strs ["https://as/oauth2/alpha"]), ("client_id", .str "https://c/oauth2/c1"),
+       ("code_challenge", .str "the-challenge"), ("code_challenge_method", .str "S256"), ("redirect_uri", .str "https://c/cb"),
+       ("response_type", .str "code"), ("scope", .str "care"), ("state", .str "cs")]⟩ else none,
+    config := fun c => if c = "https://c/oauth2/c1" then some [("kid-1", "K1")] else none }
+
+private def frontVP : VP := { witnessVP with challenge := "on#0", nonce := "", expires := some 100000 }
+
+private def frontAuth : AuthResp := { demoAuth with state := some "st#0", vps := [frontVP] }
+
+private def frontHistory : List (Nat × Req) :=
+  [(100, .authz true frontEnv (demoQuery "https://c/oauth2/c1")), (101, .authresp frontAuth)]
+
+private def frontCode (client : String) : CodeReq :=
+  { subject := "alpha", code := some "code#0", verifier := some "the-verifier", clientId := some client, dpop := .absent }
+
+example : (tokenEndpoint frontCfg grantNamesToday demoSha (serveAll frontCfg grantNamesToday demoSha frontHistory {}) 102
+      "alpha" "authorization_code" witnessReq (frontCode "https://c/oauth2/c1")).2 =
+    .ok { token := "tok#0", tokenType := "Bearer", dpopKid := none, scope := "care", expiresIn := 900 } := by decide
+
+example : (tokenEndpoint frontCfg grantNamesToday demoSha (serveAll frontCfg grantNamesToday demoSha frontHistory {}) 102
+      "alpha" "authorization_code" witnessReq (frontCode "https://c/oauth2/C1")).2 =
+    .err "invalid_request/client_id-mismatch" := by decide
 
 end Nuts.C02.Props
